@@ -69,7 +69,9 @@ pub trait BinLike { spec fn bin_view(&self) -> Seq<u8>; }
 impl BinLike for Binary { open spec fn bin_view(&self) -> Seq<u8> { self@ } }
 impl BinLike for &Binary { open spec fn bin_view(&self) -> Seq<u8> { (**self)@ } }
 #[verifier::external_body]
-pub fn from_json<T, B: BinLike>(b: B) -> (r: Result<T, StdError>) ensures r is Ok ==> r->Ok_0 == de::<T>(b.bin_view()) { unimplemented!() }
+pub fn from_json<T, B: BinLike>(b: B) -> (r: Result<T, StdError>) ensures r is Ok ==> r->Ok_0 == de::<T>(b.bin_view()), r is Ok <==> from_json_ok::<T>(b.bin_view()) { unimplemented!() }
+/// whether the bytes parse as a T (uninterpreted; deterministic)
+pub uninterp spec fn from_json_ok<T>(b: Seq<u8>) -> bool;
 
 pub enum OverflowOperation { Add, Sub, Mul, Pow, Shr, Shl }
 impl OverflowError {
@@ -82,12 +84,14 @@ pub struct Api { pub _a: u8 }
 impl Api {
     /// Ok only for the identical (already normalised) string
     #[verifier::external_body]
-    pub fn addr_validate(&self, s: &str) -> (r: Result<Addr, StdError>) ensures r is Ok ==> r->Ok_0.s@ == s@ { unimplemented!() }
+    pub fn addr_validate(&self, s: &str) -> (r: Result<Addr, StdError>) ensures r is Ok ==> r->Ok_0.s@ == s@, r is Ok <==> addr_ok(s@) { unimplemented!() }
     #[verifier::external_body]
-    pub fn addr_canonicalize(&self, s: &str) -> (r: Result<CanonicalAddr, StdError>) ensures r is Ok ==> r->Ok_0 == canonical(s@) { unimplemented!() }
+    pub fn addr_canonicalize(&self, s: &str) -> (r: Result<CanonicalAddr, StdError>) ensures r is Ok ==> r->Ok_0 == canonical(s@), r is Ok <==> addr_ok(s@) { unimplemented!() }
     #[verifier::external_body]
     pub fn addr_humanize(&self, c: &CanonicalAddr) -> (r: Result<Addr, StdError>) ensures r is Ok ==> r->Ok_0.s@ == humanize(*c) { unimplemented!() }
 }
+/// whether the chain accepts the string as an address (uninterpreted; deterministic)
+pub uninterp spec fn addr_ok(s: Seq<char>) -> bool;
 /// human-readable form of a canonical address (uninterpreted)
 pub uninterp spec fn humanize(c: CanonicalAddr) -> Seq<char>;
 pub struct Item<T> { pub ns: u64, pub _p: PhantomData<T> }
